@@ -2159,6 +2159,13 @@ static int load_debug_file(struct uftrace_dbg_info *dinfo, struct uftrace_symtab
 		ptrdiff_t sym_idx;
 		unsigned long lineno;
 
+		/*
+		 * Every entry is written with its newline: a last line without
+		 * one was cut short and does not describe a whole entry.
+		 */
+		if (strchr(line, '\n') == NULL)
+			break;
+
 		if (line[0] == '#')
 			continue;
 
@@ -2202,6 +2209,9 @@ static int load_debug_file(struct uftrace_dbg_info *dinfo, struct uftrace_symtab
 				goto out;
 
 			lineno = strtoul(&line[3], &pos, 0);
+			/* the file name follows a blank; do not look behind the end of the line */
+			if (*pos != ' ')
+				goto out;
 
 			sym_idx = sym - symtab->sym;
 			dinfo->locs[sym_idx].sym = sym;
